@@ -51,13 +51,20 @@ def transition_check(sc, tier, seed, prop, models, quick_n, rule, thorough_n=Non
     for wmod in walks:
         num = walk_n[0] if tier == 'quick' else walk_n[1]
         cfg = mc_cfg(wmod, devs).replace('Depth = 8', 'Depth = %d' % walk_depth)
-        out, st = run_tlc(sc, wmod, cfg, workers=1, timeout=600,
-                          extra=['-simulate', 'num=%d' % num, '-depth', str(3 * walk_depth + 5), '-seed', str(seed)])
-        wcs = walk_cases(tlc_json_lines(out))
-        # (the simulation is given 10 minutes; what it has printed by then is used, as long as it is at least the
-        #  quick tier's number of walks)
-        if st['violated'] or (st['rc'] != 0 and not (st['rc'] in (137, 124) and len(wcs) >= walk_n[0])):
-            raise Inconclusive('TLC simulation failed on %s:\n%s' % (wmod, '\n'.join(st['tail'][-20:])))
+        # the simulation runs in batches of the quick tier's size, each with its own seed and time limit: a batch
+        # that gets stuck on one expensive walk (strings that keep doubling ...) is cut off and what it has printed
+        # is used; the first batch must complete
+        wcs, nb, wall = [], 0, 0.0
+        while len(wcs) < num and nb < 2 * ((num + walk_n[0] - 1) // walk_n[0]):
+            out, st = run_tlc(sc, wmod, cfg, workers=1, timeout=240, tag='%s-b%d' % (wmod, nb),
+                              extra=['-simulate', 'num=%d' % min(walk_n[0], num - len(wcs)), '-depth', str(3 * walk_depth + 5), '-seed', str(seed + 7919 * nb)])
+            wall += st['wall_s']
+            part = walk_cases(tlc_json_lines(out))
+            if st['violated'] or (st['rc'] != 0 and (nb == 0 or st['rc'] not in (137, 124))):
+                raise Inconclusive('TLC simulation failed on %s:\n%s' % (wmod, '\n'.join(st['tail'][-20:])))
+            wcs.extend(part)
+            nb += 1
+        st = dict(st, wall_s=round(wall, 2))
         if not wcs:
             raise Inconclusive('TLC simulation of %s produced no walk' % wmod)
         for i, c in enumerate(wcs):
